@@ -60,12 +60,20 @@ Record opts := {
 (* a Decoder is the list of bytes from cur_ to end_ *)
 Definition dec := list byte.
 
+(* remaining_bytes() < n, evaluated by walking at most n elements (IO/OvmbProofs.v: short d n = (len d <? n)) *)
+Fixpoint has_z (d : dec) (n : Z) : bool :=
+  match d with
+  | [] => n <=? 0
+  | _ :: t => if n <=? 0 then true else has_z t (n - 1)
+  end.
+Definition short (d : dec) (n : Z) : bool := negb (has_z d n).
+
 (* Decoder::need *)
-Definition need (n : Z) (d : dec) : R unit := if len d <? n then parse_error else Ret tt.
+Definition need (n : Z) (d : dec) : R unit := if short d n then parse_error else Ret tt.
 
 (* Decoder::u8/u16/u32/u64 (need(n) first) *)
 Definition rd (n : nat) (d : dec) : R (Z * dec) :=
-  if len d <? Z.of_nat n then parse_error else Ret (le_decode (firstn n d), skipn n d).
+  if short d (Z.of_nat n) then parse_error else Ret (le_decode (firstn n d), skipn n d).
 Definition rd_u8 := rd 1.
 Definition rd_u16 := rd 2.
 Definition rd_u32 := rd 4.
@@ -73,7 +81,7 @@ Definition rd_u64 := rd 8.
 
 (* Decoder::read(uint8_t*|char*, n) (need(n) first) *)
 Definition rd_bytes (n : Z) (d : dec) : R (list byte * dec) :=
-  if len d <? n then parse_error else Ret (firstn (Z.to_nat n) d, skipn (Z.to_nat n) d).
+  if short d n then parse_error else Ret (firstn (Z.to_nat n) d, skipn (Z.to_nat n) d).
 
 (* Decoder::reserved<N> *)
 Definition rd_reserved (n : nat) (d : dec) : R dec :=
@@ -418,7 +426,7 @@ Fixpoint rd_ints (n : nat) (enc : Z) (mk : Z -> R Z) (d : dec) : R (list Z * dec
 
 Definition read_n_ints (enc : Z) (count : Z) (mk : Z -> R Z) (d : dec) : R (list Z * dec) :=
   if negb (is_valid_IntEncoding enc) then state_error S_ErrorInvalidEncoding
-  else if len d <? count * elem_size_IntEncoding enc then state_error S_ErrorInvalidFile
+  else if short d (count * elem_size_IntEncoding enc) then state_error S_ErrorInvalidFile
   else if elem_size_IntEncoding enc =? 0 then Ret ([], d)          (* call_with_decoder(None): nothing is read *)
   else rd_ints (Z.to_nat count) enc mk d.
 
